@@ -99,7 +99,12 @@ def run(spec, cfg=None, *, env=None, workers=1, heap="800m", timeout=600, simula
     res = parse(out)
     res.update(rc=p.returncode, out=out, wall_s=wall, workdir=workdir, cmd=" ".join(cmd))
     if res["error"]:
-        tail = "\n".join(out.splitlines()[-40:])
+        lines = out.splitlines()
+        idx = [i for i, ln in enumerate(lines) if ln.startswith("Error") or "Exception" in ln]
+        if idx:
+            tail = "\n".join(lines[max(0, idx[0] - 3): idx[0] + 25])
+        else:
+            tail = "\n".join(lines[-40:])
         raise TLCError(f"TLC failed on {spec} ({cfg_path}):\n{tail}")
     if not keep:
         shutil.rmtree(workdir, ignore_errors=True)
